@@ -8,6 +8,7 @@ import PGM.Driver.C19
 import PGM.Driver.C03
 import PGM.Driver.C08
 import PGM.Driver.C11
+import PGM.Driver.C16
 /-!
 Line-protocol driver: one JSON request per input line, one JSON response per output line.
 Run with `lake env lean --run Main.lean` or as the compiled `pgmdriver`.
@@ -34,6 +35,11 @@ def dispatch (req : Json) : Except String Json := do
   | "bp_f" => handleBPF req
   | "mle_f" => handleMLE req
   | "col_check" => handleColCheck req
+  | "rg_build" => handleRGBuild req
+  | "gbp" => handleGBP req
+  | "hps" => handleHPS req
+  | "hps_cert" => handleHPSCert req
+  | "lbp" => handleLBP req
   | _ => throw s!"unknown op {op}"
 
 def respond (line : String) : String :=
